@@ -68,9 +68,21 @@ class CallMixin:
                 return VC(base.t.name)
         if k == 'ref':
             return self.ref_attr(base, name, node)
+        if k == 'super':
+            cur_cls, recv = base.t
+            rcls = self.st.heap[recv.t].cls if recv.k == 'obj' else recv.t
+            mem = self.src.find_member(rcls, name, after=cur_cls)
+            if mem is None:
+                if name in ('__init__', '__setattr__', '__init_subclass__'):
+                    return SV('func', FuncVal(builtin='object.' + name, bound=recv, name=name))
+                raise PyRaise('AttributeError', name)
+            return self.class_member(mem, rcls, name, recv, node)
         raise Unsupported(f'attribute {name} of {base}')
 
     def ref_attr(self, base, name, node):
+        rm = (self.cur_contract or {}).get('ref_methods', {}).get(name)
+        if rm is not None:
+            return SV('func', FuncVal(builtin='refmethod:' + rm, bound=base, name=name))
         spec = (self.cur_contract or {}).get('ref_fields', {}).get(name)
         if spec is None:
             raise Unsupported(f'field {name} of a symbolic object reference (declare ref_fields)')
@@ -455,6 +467,14 @@ class CallMixin:
 
     def call_function(self, f, args, kw, node=None):
         fn = f.node
+        stubs = (self.cur_contract or {}).get('stubs', {})
+        if f.name in stubs and f.bound is not None:
+            st = stubs[f.name]
+            if st.get('raises') and self.st.oracle.choose(2) == 1:
+                raise PyRaise('StubException', f.name)
+            r = self.fresh_of(st.get('returns', 'none'), 'stub_' + f.name)
+            self.st.ghost['stub_result_' + f.name] = r
+            return r
         if isinstance(fn, ast.Lambda):
             env = dict(f.closure or {})
             env.update(self.bind(fn, args, kw, f))
@@ -532,8 +552,9 @@ class CallMixin:
         raise PyRaise('ValueError', 'not an enum value')
 
     # ---------------------------------------------------------------- modular call
-    def modular_call(self, key, c, f, allargs, kw, node=None):
-        env = self.bind(f.node, allargs, kw, f)
+    def modular_call(self, key, c, f, allargs, kw, node=None, env=None):
+        if env is None:
+            env = self.bind(f.node, allargs, kw, f)
         cenv = dict(env)
         n = self.call_ordinal(key)
         tag = f'{key}@{n}'
@@ -542,6 +563,12 @@ class CallMixin:
         pre_heap = self.st.snapshot_heap()
         for i, (nm, r) in enumerate(self.clauses(c.get('requires', []))):
             self.oblige(f'pre@call[{key}]#{nm}', self.truth(self.ev_spec(r, cenv)), node, info=tag)
+        extra = (self.cur_contract or {}).get('call_requires', {}).get(key, []) if self.frame.fn_key == self.cur_key else []
+        if extra:
+            xenv = dict(cenv)
+            xenv.update(self.frame.env)      # the caller's names win (its own self); callee parameter names stay visible
+            for nm, r in self.clauses(extra):
+                self.oblige(f'call-req[{key}]#{nm}', self.truth(self.ev_spec(r, xenv)), node, info=tag)
         for exc, cond in c.get('raises', {}).items():
             if self.branch(self.truth(self.ev_spec(cond, cenv))):
                 raise PyRaise(exc, f'from {key}')
@@ -551,11 +578,18 @@ class CallMixin:
             for loc in c.get('modifies', []):
                 self.havoc_location(loc, cenv, c)
             for g, upd in c.get('ghost_effects', {}).items():
-                self.st.ghost[g] = self.ev_spec(upd, cenv)
+                if g in self.st.ghost:
+                    self.st.ghost[g] = self.ev_spec(upd, cenv)
+            if 'yields' in c:
+                return SV('gen', (key, c, dict(cenv)))
             res = self.fresh_of(c.get('returns', 'none'), key.replace('.', '_'))
             cenv['result'] = res
             for nm, r in self.clauses(c.get('ensures', [])):
                 self.assume(self.truth(self.ev_spec(r, cenv)))
+            if c.get('inv_preserved') and 'self' in cenv and cenv['self'].k == 'obj':
+                hc = self.st.heap[cenv['self'].t].cls
+                for inv in c.get('self_inv', self.models.get(hc, {}).get('inv', [])):
+                    self.assume(self.truth(self.ev_spec(inv, {'self': cenv['self']})))
         finally:
             self.st.old_heap, self.st.old_env, self.st.old_ghost = old_heap, old_env, old_ghost
         return res
@@ -575,14 +609,17 @@ class CallMixin:
         return out
 
     def havoc_location(self, loc, env, c):
-        # 'self.field' or 'param.field'
-        base, _, field = loc.partition('.')
-        o = env[base]
+        # 'self.field' / 'param.field' / 'self.a.b'
+        base, _, field = loc.rpartition('.')
+        o = self.ev_spec(base, env)
         h = self.st.heap[o.t]
         spec = self.models.get(h.cls, {}).get('fields', {}).get(field)
-        if spec is None:
+        if spec is None and base == 'self':
             spec = (c.get('self_fields') or {}).get(field)
         if spec is None:
+            if field in h.f:
+                h.f[field] = self.havoc_like(h.f[field], field)
+                return
             raise Unsupported(f'modifies {loc}: no type for field')
         h.f[field] = self.fresh_of(spec, field)
 
@@ -598,6 +635,8 @@ class CallMixin:
         self.st.frames.append(Frame(dict(env), cls=None, module='<spec>'))
         try:
             return self.ev(node)
+        except PyRaise as r:
+            raise Unsupported(f'specification expression raised {r.exc} {r.info}: {text[:100]}')
         finally:
             self.st.frames.pop()
             self.in_spec = saved
